@@ -331,6 +331,8 @@ def classify_leaf(inn, outn, cfg, cls):
     if inn[0] != outn[0]:
         return "T"
     if inn == outn:
+        if inn[0] == 'str' and inn[1] == cfg.repl():
+            return "="          # kept or replaced: indistinguishable (the literal equals the replacement text)
         return "k"
     t = inn[0]
     if t == 'str':
@@ -414,6 +416,8 @@ def drift(pred, actual, cfg):
         return True
     for p, a in zip(pred, actual):
         if p == a:
+            continue
+        if a == "=" and p in "kg":
             continue
         if p == "f" and a == "k":      # false stays false
             continue
@@ -611,7 +615,7 @@ def add_violation(res, sig, r, detail=None):
 
 def generate(module, cfgfile, cfgs, defines, sink, timeout=1500, simulate=None, depth=None, seed=None):
     d = {"Cfgs": cfgs_tla(cfgs), "TWTables": "{}", "TWShapeKinds": "{}", "FreeDepth": "1", "FreeKeys": "{}", "FreeSlots": "{}",
-         "GMDepth": "4", "GMWide": "1", "GMMaxFld": "2", "GMMaxArr": "2", "GMTail": "2", "GMShallow": "2", "GMSeeds": "{}", "GMSlots": "{}", "GMFields": '{"uf1"}',
+         "GMDepth": "4", "GMWide": "1", "GMMaxFld": "2", "GMMaxArr": "2", "GMTail": "2", "GMShallow": "2", "GMSeeds": "<< >>", "GMSlots": "{}", "GMFields": '{"uf1"}',
          "GMKinds": '{"plain", "email", "num", "bool", "dollar", "date", "oid", "b64", "nsname", "null", "empty"}'}
     d.update(defines or {})
     return common.run_tlc(module, cfgfile, defines=d, sink=sink, want_records=False, timeout=timeout,
@@ -708,7 +712,39 @@ def grammar_edges(dump=None):
     return set((a, b) for a, b, _ in d["edges"])
 
 
-def grammar_seeds(dump, field="uf1", slots=("filter", "update", "updates", "deletes", "documents", "pipeline", "sort")):
+CONTEXTS = [
+    ("pipeline", ["[]", "$match"]),
+    ("pipeline", ["[]", "$lookup", "pipeline", "[]", "$match"]),
+    ("pipeline", ["[]", "$lookup", "pipeline", "[]", "$set"]),
+    ("pipeline", ["[]", "$facet", "uf1", "[]", "$match"]),
+    ("pipeline", ["[]", "$unionWith", "pipeline", "[]"]),
+    ("pipeline", ["[]", "$search", "equals", "value"]),
+    ("pipeline", ["[]", "$search", "compound", "must", "[]"]),
+    ("pipeline", ["[]", "$search", "compound", "filter", "[]", "equals", "value"]),
+    ("pipeline", ["[]", "$search", "embeddedDocument", "operator"]),
+    ("pipeline", ["[]", "$searchMeta", "facet", "operator"]),
+    ("pipeline", ["[]", "$searchMeta", "facet", "operator", "equals", "value"]),
+    ("pipeline", ["[]", "$vectorSearch", "filter"]),
+    ("pipeline", ["[]", "$set", "uf1"]),
+    ("pipeline", ["[]", "$group", "_id"]),
+    ("pipeline", ["[]", "$replaceRoot", "newRoot"]),
+    ("pipeline", ["[]", "$merge", "whenMatched", "[]"]),
+    ("pipeline", ["[]", "$rankFusion", "input", "pipelines", "uf1", "[]"]),
+    ("update", ["[]", "$set", "uf1"]),
+    ("update", ["[]", "$match"]),
+    ("updates", ["[]", "u"]),
+    ("updates", ["[]", "u", "[]", "$set", "uf1"]),
+    ("updates", ["[]", "q"]),
+    ("deletes", ["[]", "q"]),
+    ("documents", ["[]"]),
+    ("filter", ["$expr"]),
+    ("filter", ["$and", "[]"]),
+    ("filter", ["uf1", "$elemMatch"]),
+]
+
+
+def grammar_seeds(dump, field="uf1", slots=("filter", "update", "updates", "deletes", "documents", "pipeline", "sort"),
+                  contexts=None, extra_depth=3):
     """One shortest key path through every edge of the grammar (key edges, the user-field edge and the array edge of
     every nonterminal): shortest prefix from a command slot + the edge + shortest completion to a nonterminal that
     admits a scalar.  Returned as the TLA+ text of the constant GMSeeds; RedactorGM validates each against G."""
@@ -762,8 +798,37 @@ def grammar_seeds(dump, field="uf1", slots=("filter", "update", "updates", "dele
         for k, ch in succ[nt]:
             if ch in comp:
                 seeds.add((s, tuple(pre + [k] + comp[ch])))
+    # the same sub-grammars reached through the other walkers / contexts
+    for s, ctx in (contexts if contexts is not None else CONTEXTS):
+        nt = dump["slots"][s]
+        okp = True
+        for k in ctx:
+            nxt = [ch for kk, ch in succ.get(nt, []) if kk == k]
+            if not nxt:
+                okp = False
+                break
+            nt = nxt[0]
+        if not okp:
+            continue
+        local = {nt: []}
+        q = collections.deque([nt])
+        while q:
+            x = q.popleft()
+            if len(local[x]) >= extra_depth:
+                continue
+            for k, ch in succ.get(x, []):
+                if ch in comp:
+                    seeds.add((s, tuple(ctx + local[x] + [k] + comp[ch])))
+                if ch not in local:
+                    local[ch] = local[x] + [k]
+                    q.append(ch)
     q_ = lambda x: '"' + x.replace("\\", "\\\\").replace('"', '\\"') + '"'
-    return "{" + ", ".join("<<%s, <<%s>>>>" % (q_(s), ", ".join(q_(k) for k in ks)) for s, ks in sorted(seeds)) + "}", len(seeds)
+    ordered = sorted(seeds)
+    nchunks = 64
+    chunks = [ordered[i::nchunks] for i in range(nchunks)]
+    txt = "<< " + ", ".join("{" + ", ".join("<<%s, <<%s>>>>" % (q_(s), ", ".join(q_(k) for k in ks)) for s, ks in ch) + "}"
+                            for ch in chunks if ch) + " >>"
+    return txt, len(seeds)
 
 
 class EdgeCoverage:
@@ -777,3 +842,21 @@ class EdgeCoverage:
             self.seen.add((e[0], e[1]))
         rec.pop("m", None)
         self.inner(rec)
+
+
+def vocabulary_fields(b):
+    """Non-$ words of the implementation's CURRENT operator tables (and of the specification's), as the TLA+ set of
+    user field names for the 'a user field may be called like an operator argument' cases; plus the list of
+    differences between the current tables and spec/OperatorTables.tla (reported as drift, never a verdict)."""
+    import tables
+    spec = tables.load_spec_dump()
+    words = set(w for w in tables.vocabulary(spec) if not w.startswith("$") and w)
+    drift = []
+    if b.inproc and "tables" in b.ops:
+        cur = common.run_inproc(b, [{"op": "tables"}])[0]["result"]
+        words |= set(w for w in tables.vocabulary(cur) if not w.startswith("$") and w)
+        for path, a, c_ in tables.diff(tables.normalise(spec), tables.normalise(cur)):
+            drift.append({"entry": "/".join(path), "specification": a if not isinstance(a, dict) else "table", "implementation": c_ if not isinstance(c_, dict) else "table"})
+        if drift:
+            print("TABLE-DRIFT %d operator-table entries differ from spec/OperatorTables.tla, e.g. %s" % (len(drift), json.dumps(drift[:3])))
+    return "{" + ", ".join('"%s"' % w for w in sorted(words)) + "}", drift
